@@ -40,7 +40,7 @@ def requirements(tier):
     for name in E.ALL:
         r[f"judged:{name}/perm"] = 15
         r[f"judged:{name}/zeros"] = 15
-    r.update({"w_rank_deficient_judged": 200, "w_float32": 500, "rng_recorder_hits": 1, "judged_many_zero_columns": 60})
+    r.update({"w_rank_deficient_judged": 200, "w_float32": 500, "rng_recorder_hits": 1, "judged_many_zero_columns": 60, "w_all_entries_below_norm_eps_but_s_above": 100})
     return r
 
 
@@ -56,6 +56,16 @@ def gen_case(rng, i):
     else:
         J, klass = M.gen(rng, max_m=6, max_n=8)
     m = J.shape[0]
+    if rng.random() < 0.1 and name != "Krum":
+        # small-scale wide matrices: EVERY entry below the default norm_eps = 1e-4 while the largest singular value is well above it
+        for _ in range(20):
+            mm, nn = int(rng.integers(2, 6)), int(rng.integers(10, 13))
+            rows = rng.choice([-1.0, 1.0], size=(mm, 1)) * np.where(rng.random((mm, nn)) < 0.2, -1.0, 1.0)
+            cand = 1e-4 * rng.uniform(0.3, 0.95, size=(mm, nn)) * rows
+            if M.smax(cand) >= 2.5e-4:
+                J, klass = cand, "near_norm_eps"
+                break
+        m = J.shape[0]
     desc = E.config(rng, name, m, dname)
     if desc is None:
         return None
@@ -190,6 +200,8 @@ def check_case(case, ctx):
         ctx.klass(f"zero_columns={case['k']}")
     if rank < min(m, n):
         ctx.count("w_rank_deficient_judged")
+    if case["class"] == "near_norm_eps" and float(np.abs(J).max()) < 1e-4 <= s:
+        ctx.count("w_all_entries_below_norm_eps_but_s_above")
     if dname == "float32":
         ctx.count("w_float32")
     ctx.klass(f"class={case['class']}")
